@@ -534,9 +534,72 @@ fn check_long_codes(run: &Run, acc: &mut Acc) {
     }
 }
 
+/// Puncturing rates that are inexact in binary: for several codeword lengths, every pattern length
+/// dividing it and every number of kept blocks (first-t and last-t arrangements), one decode through
+/// the C interface against the Rust decoder on the depunctured LLRs.
+fn check_rate_coincidences(run: &Run, acc: &mut Acc) {
+    let lengths: Vec<usize> = if run.thorough() { vec![15, 21, 30, 33, 45, 60, 63, 90, 126] } else { vec![15, 21, 30, 45, 63] };
+    for n in lengths {
+        let r = n / 3;
+        let k = n - r;
+        let mut h = SparseMatrix::new(r, n);
+        for i in 0..r {
+            h.insert(i, i % k);
+            h.insert(i, (i * 5 + 2) % k);
+            h.insert(i, k + i);
+            if i > 0 {
+                h.insert(i, k + i - 1);
+            }
+        }
+        let text = h.alist();
+        let parsed = SparseMatrix::from_alist(&text).unwrap_or_else(|e| machinery(&format!("C19: {}", e)));
+        let textc = cs(&text);
+        let namec = cs("Phif64");
+        for plen in 2..=n.min(32) {
+            if n % plen != 0 {
+                continue;
+            }
+            let b = n / plen;
+            for t in 1..=plen {
+                for last in [false, true] {
+                    let pat: Vec<bool> = (0..plen).map(|i| if last { i >= plen - t } else { i < t }).collect();
+                    let ps: String = pat.iter().map(|&x| if x { "1" } else { "0" }).collect::<Vec<_>>().join(",");
+                    acc.evals += 1;
+                    acc.nontrivial += 1;
+                    let key = format!("capi:rate:n{}:{}", n, ps);
+                    let replay = json!({"kind": "rate", "n": n, "pattern": ps});
+                    let pc = cs(&ps);
+                    let handle = unsafe { ldpc_toolbox_decoder_ctor_alist_string(textc.as_ptr(), namec.as_ptr(), pc.as_ptr()) };
+                    if handle.is_null() {
+                        acc.violate(key, "constructor returned null for a valid pattern".into(), replay);
+                        continue;
+                    }
+                    let tx: Vec<f64> = (0..n).filter(|j| pat[j / b]).map(|j| if j % 7 == 3 { -1.5 } else { 2.5 }).collect();
+                    let dep = ref_depuncture(&tx, &Some(pat.clone()), n);
+                    let want = match dec::factory_build("Phif64", parsed.clone()).unwrap().decode(&dep, 3) {
+                        Ok(o) => (o.iterations as i32, o.codeword),
+                        Err(o) => (-1, o.codeword),
+                    };
+                    let mut out = vec![0xAAu8; n];
+                    match guard(|| unsafe { ldpc_toolbox_decoder_decode_f64(handle, out.as_mut_ptr(), out.len(), tx.as_ptr(), tx.len(), 3) }) {
+                        Err(e) => acc.violate(key, format!("decode panicked: {}", e), replay),
+                        Ok(rv) => {
+                            if rv != want.0 || out != want.1 {
+                                acc.violate(key, format!("C decoder returns {} with {:?}..., the Rust decoder on the depunctured LLRs returns {} with {:?}...", rv, &out[..out.len().min(12)], want.0, &want.1[..want.1.len().min(12)]), replay);
+                            }
+                        }
+                    }
+                    unsafe { ldpc_toolbox_decoder_dtor(handle) };
+                }
+            }
+        }
+    }
+}
+
 pub fn run(run: &Run) -> i32 {
     let mut acc = Acc::new();
     let mut graph = (0u64, 0u64, 0u64);
+    check_rate_coincidences(run, &mut acc);
     check_ctors(run, &mut acc);
     check_encoder_handles(&mut acc);
     check_long_codes(run, &mut acc);
@@ -565,7 +628,7 @@ pub fn run(run: &Run) -> i32 {
         run,
         acc,
         Coverage {
-            rule: "long codes: 300x600 and 1200x2400 (thorough 2700x5400) staircase codes whose alist text has 13 k - 250 k bytes, padded and unpadded, through the string and the file constructor, 4 implementations, with and without puncturing: one decode and one encode per handle against the Rust decoder / encoder built from the same text; constructors: 7 alist texts (valid 3x6, staircase 3x5, singular tail, truncated, non-numeric, out-of-range index, empty) x text and file variants x (36 names + 5 non-names) x 9 puncturing strings for the decoder, x 9 puncturing strings for the encoder, plus an unreadable path and non-UTF-8 byte strings in every argument position: null exactly when a Rust-side prerequisite fails; decoder handles: for each of 36 names x {no puncturing, '1,1,0'} (plus '0,1,1', '1,0,1', '0,1' for a subset of names) on the 3x6 code, EVERY call sequence of length <= 3 over 48 (72 thorough) calls (f64/f32 x 4 (6) LLR buffers x max_iterations {0,1,5} x output_len {k, n}), each call compared with a fresh Rust decoder on the depunctured (f32-widened) LLRs; encoder handles: every input in {0,1,2,255}^k on two codes x puncturing patterns, twice per handle. states/transitions = handle call sequences executed. Non-trivial = call made on a handle that has already been used / rejected constructor / punctured or non-binary encoder input.".into(),
+            rule: "inexact puncturing rates: codeword lengths 15, 21, 30, 45, 63 (thorough to 126) x every pattern length dividing them x every number of kept blocks (first-t / last-t), one decode each against the Rust decoder; long codes: 300x600 and 1200x2400 (thorough 2700x5400) staircase codes whose alist text has 13 k - 250 k bytes, padded and unpadded, through the string and the file constructor, 4 implementations, with and without puncturing: one decode and one encode per handle against the Rust decoder / encoder built from the same text; constructors: 7 alist texts (valid 3x6, staircase 3x5, singular tail, truncated, non-numeric, out-of-range index, empty) x text and file variants x (36 names + 5 non-names) x 9 puncturing strings for the decoder, x 9 puncturing strings for the encoder, plus an unreadable path and non-UTF-8 byte strings in every argument position: null exactly when a Rust-side prerequisite fails; decoder handles: for each of 36 names x {no puncturing, '1,1,0'} (plus '0,1,1', '1,0,1', '0,1' for a subset of names) on the 3x6 code, EVERY call sequence of length <= 3 over 48 (72 thorough) calls (f64/f32 x 4 (6) LLR buffers x max_iterations {0,1,5} x output_len {k, n}), each call compared with a fresh Rust decoder on the depunctured (f32-widened) LLRs; encoder handles: every input in {0,1,2,255}^k on two codes x puncturing patterns, twice per handle. states/transitions = handle call sequences executed. Non-trivial = call made on a handle that has already been used / rejected constructor / punctured or non-binary encoder input.".into(),
             exhaustive: true,
             extra: serde_json::Map::new(),
             graph: Some(graph),
